@@ -703,7 +703,9 @@ fn judge_scen(c: &Conf, s: &Scen, obs: &[Obs], settled: bool) -> Verdict {
             let up = obs.iter().find(|o| !o.down && o.id == 10 + *ci as u8 && o.at >= *at).map(|o| o.at);
             let Some(up) = up else { continue };
             let lo = (*at).max(t_rule + 1);
-            let slack = (R_DELAY + s.presses.len() as u32 + 4) as u64;
+            // the counting variant queues the virtual key's press and release (and its macro) ahead of the
+            // chord's release: three more queue slots
+            let slack = (R_DELAY + s.presses.len() as u32 + 4 + if c.counting { 3 } else { 0 }) as u64;
             let hi = (*at).max(t_rule) + slack;
             if up < lo {
                 v.sig = Some((format!("C09:{ver}:chord-released-early"), format!("{} released in tick {up}, before the release rule allows ({})", unit_name(10 + *ci as u8, tb), if c.first_release() { "first participant release" } else { "all participants released" })));
@@ -1079,7 +1081,7 @@ impl Check for C09Check {
         vec![
             "all chords of a table share one timeout; scenarios start from idle with chord processing enabled (after the chords-v2-min-idle window), so no scenario straddles that window at its start; presses that fall into the window opened by an earlier non-chord activation of the same scenario are only judged by the accounting oracle".into(),
             "window convention as measured (appendix A): v1 participants must arrive < T after the first, v2 <= T".into(),
-            "release slack: rapid-event-delay + number of keys + 4 ticks after the release rule is met".into(),
+            "release slack: rapid-event-delay + number of keys + 4 ticks (+3 when the chord action also taps a counting virtual key) after the release rule is met".into(),
             "v1 tables define a single-key chord for every participating key, so a vanished key is always a swallowed key; the v1 release rule is only judged for undecomposed chords (the guide calls the other cases implementation-defined)".into(),
             "v2 negative scenarios are judged by accounting only (which sub-chords fire depends on press order by design)".into(),
             "many scenarios run on one kanata instance separated by idle periods; a mismatch is re-judged on a fresh instance".into(),
